@@ -4,7 +4,10 @@ import (
 	"fmt"
 	"go/constant"
 	"go/types"
+	"sort"
 	"strings"
+
+	"golang.org/x/tools/go/ssa"
 )
 
 // SpecEnv evaluates spec expressions to SMT terms.
@@ -151,7 +154,7 @@ func (env *SpecEnv) eval(e Expr) *Val {
 			} else {
 				hi = sLen(x.T)
 			}
-			return scalar(mkSliceT(sArr(x.T), app(SInt, "+", sOff(x.T), lo), app(SInt, "-", hi, lo), app(SInt, "-", sCap(x.T), lo)), x.Typ)
+			return scalar(mkSliceT(sArr(x.T), addT(sOff(x.T), lo), app(SInt, "-", hi, lo), app(SInt, "-", sCap(x.T), lo)), x.Typ)
 		}
 		env.fail("slice expression on %s", x.T.Sort)
 	case *EQuant:
@@ -173,7 +176,23 @@ func (env *SpecEnv) eval(e Expr) *Val {
 		if e.Forall {
 			q = "forall"
 		}
-		return scalar(Term{fmt.Sprintf("(%s (%s) %s)", q, strings.Join(decl, " "), body.T.S), SBool}, specBoolT)
+		ex.nfresh++
+		qid := fmt.Sprintf("spec.%s.%d", strings.Join(func() []string {
+			var ns []string
+			for _, v := range e.Vars {
+				ns = append(ns, v.Name)
+			}
+			return ns
+		}(), "_"), ex.nfresh)
+		var vnames []string
+		for _, q := range e.Vars {
+			vnames = append(vnames, vars[q.Name].T.S)
+		}
+		pats := ""
+		if ex.autoPat {
+			pats = autoPatterns(body.T.S, vnames)
+		}
+		return scalar(Term{fmt.Sprintf("(%s (%s) (! %s%s :qid |%s|))", q, strings.Join(decl, " "), body.T.S, pats, qid), SBool}, specBoolT)
 	case *ECall:
 		return env.call(e)
 	case *EType:
@@ -183,8 +202,58 @@ func (env *SpecEnv) eval(e Expr) *Val {
 	return nil
 }
 
+// dollarValue resolves $-names: values of the current function that are not loop variables, named by
+// instruction kind and ordinal in source order: $makemapN, $makesliceN, $lookupN, $call_<func>_N.
+func (env *SpecEnv) dollarValue(name string) *Val {
+	st := env.st
+	if st == nil || st.frame == nil {
+		env.fail("%s used outside a function body", name)
+	}
+	fr := st.frame
+	counts := map[string]int{}
+	for _, b := range fr.fn.Blocks {
+		for _, in := range b.Instrs {
+			kind := ""
+			switch x := in.(type) {
+			case *ssa.MakeMap:
+				kind = "makemap"
+			case *ssa.MakeSlice:
+				kind = "makeslice"
+			case *ssa.Lookup:
+				kind = "lookup"
+			case *ssa.Call:
+				if cal := x.Common().StaticCallee(); cal != nil {
+					kind = "call_" + cal.Name() + "_"
+				} else if x.Common().IsInvoke() {
+					kind = "call_" + x.Common().Method.Name() + "_"
+				}
+			}
+			if kind == "" {
+				continue
+			}
+			n := fmt.Sprintf("$%s%d", kind, counts[kind])
+			counts[kind]++
+			if n == name {
+				v, ok := fr.vals[in.(ssa.Value)]
+				if !ok {
+					env.fail("%s is not computed on this path", name)
+				}
+				if v.Tup != nil {
+					return v.Tup[0]
+				}
+				return v
+			}
+		}
+	}
+	env.fail("no value named %s in %s (the function changed?)", name, fr.fn.String())
+	return nil
+}
+
 func (env *SpecEnv) ident(name string) *Val {
 	ex := env.ex
+	if strings.HasPrefix(name, "$") {
+		return env.dollarValue(name)
+	}
 	if v, ok := env.vars[name]; ok {
 		if v == nil {
 			env.fail("variable %s has no value here", name)
@@ -284,11 +353,12 @@ func (env *SpecEnv) index(x, i *Val, e Expr) *Val {
 			env.fail("index of slice with unknown element type in %s", e)
 		}
 		_, comp := ex.elemsComp(env.cur, sl.Elem())
-		return scalar(mkSelect(mkSelect(comp, sArr(x.T)), app(SInt, "+", sOff(x.T), i.T)), sl.Elem())
+		return scalar(mkSelect(mkSelect(comp, sArr(x.T)), addT(sOff(x.T), i.T)), sl.Elem())
 	case SInt:
 		if mt, ok := x.Typ.Underlying().(*types.Map); ok {
 			has, v := ex.mapLoad(env.st, env.cur, mt, x.T, i.T)
-			return scalar(mkIte(has, v.T, zeroOfSort(v.T.Sort)), mt.Elem())
+			_ = has
+			return scalar(v.T, mt.Elem())
 		}
 	}
 	if strings.HasPrefix(string(x.T.Sort), "(Array ") {
@@ -412,6 +482,70 @@ func (env *SpecEnv) specCallEnv(sf *SpecFunc, e *ECall) (*SpecEnv, *SpecEnv) {
 	return n, tenv
 }
 
+// recView records which heap components a spec expression reads.
+type recView struct {
+	inner HeapView
+	keys  *[]string
+	sorts map[string]Sort
+}
+
+func (r recView) comp(key string, sort Sort) Term {
+	if _, ok := r.sorts[key]; !ok {
+		r.sorts[key] = sort
+		*r.keys = append(*r.keys, key)
+	}
+	return r.inner.comp(key, sort)
+}
+
+// opaqueApp: an opaque spec function is an uninterpreted predicate of its arguments and of the heap
+// components its body reads; its definition is visible only in functions that `reveal` it.
+func (env *SpecEnv) opaqueApp(sf *SpecFunc, callee *SpecEnv) *Val {
+	ex := env.ex
+	rs, ok := ex.opaqueReads[sf.Name]
+	if !ok {
+		var keys, oldKeys []string
+		sorts := map[string]Sort{}
+		oldSorts := map[string]Sort{}
+		probe := *callee
+		probe.cur = recView{callee.cur, &keys, sorts}
+		probe.old = recView{callee.old, &oldKeys, oldSorts}
+		saved := ex.revealAll
+		ex.revealAll = true
+		probe.eval(sf.Body)
+		ex.revealAll = saved
+		sort.Strings(keys)
+		sort.Strings(oldKeys)
+		rs = &opaqueRead{keys, sorts, oldKeys, oldSorts}
+		ex.opaqueReads[sf.Name] = rs
+	}
+	var sorts []Sort
+	var ts []string
+	for _, p := range sf.Params {
+		v := callee.vars[p.Name]
+		sorts = append(sorts, v.T.Sort)
+		ts = append(ts, v.T.S)
+	}
+	for _, k := range rs.keys {
+		c := env.cur.comp(k, rs.sorts[k])
+		sorts = append(sorts, c.Sort)
+		ts = append(ts, c.S)
+	}
+	for _, k := range rs.oldKeys {
+		c := env.old.comp(k, rs.oldSorts[k])
+		sorts = append(sorts, c.Sort)
+		ts = append(ts, c.S)
+	}
+	f := ex.uninterp("opaque."+sf.Name, sorts, SBool)
+	return scalar(Term{fmt.Sprintf("(%s %s)", f, strings.Join(ts, " ")), SBool}, specBoolT)
+}
+
+type opaqueRead struct {
+	keys     []string
+	sorts    map[string]Sort
+	oldKeys  []string
+	oldSorts map[string]Sort
+}
+
 type namedTerm struct {
 	name string
 	t    Term
@@ -429,7 +563,7 @@ func (env *SpecEnv) conjuncts(e Expr, prefix string) []namedTerm {
 			return append(l, r...)
 		}
 	case *ECall:
-		if sf, ok := env.ex.ct.Specs[x.Fn]; ok {
+		if sf, ok := env.ex.ct.Specs[x.Fn]; ok && !(sf.Opaque && !(env.ex.top != nil && env.ex.top.Reveals[sf.Name]) && !env.ex.revealAll) {
 			if b, isBin := sf.Body.(*EBin); isBin && b.Op == "&&" {
 				n, _ := env.specCallEnv(sf, x)
 				return n.conjuncts(sf.Body, prefix+x.Fn+".")
@@ -463,6 +597,9 @@ func (env *SpecEnv) call(e *ECall) *Val {
 	// spec functions (macro expansion)
 	if sf, ok := ex.ct.Specs[e.Fn]; ok {
 		n, tenv := env.specCallEnv(sf, e)
+		if sf.Opaque && !(ex.top != nil && ex.top.Reveals[sf.Name]) && !ex.revealAll {
+			return env.opaqueApp(sf, n)
+		}
 		r := n.eval(sf.Body)
 		if sf.Ret != "" {
 			nv := *r
@@ -638,7 +775,11 @@ func (env *SpecEnv) call(e *ECall) *Val {
 		if len(parts) == 1 {
 			return scalar(parts[0], specStrT)
 		}
-		return scalar(app(SString, "str.++", parts...), specStrT)
+		acc := parts[0]
+		for _, pt := range parts[1:] {
+			acc = app(SString, "str.++", acc, pt)
+		}
+		return scalar(acc, specStrT)
 	case "int8":
 		return scalar(wrapInt(types.Typ[types.Int8], arg(0).T), types.Typ[types.Int8])
 	case "min":
@@ -686,7 +827,7 @@ func (env *SpecEnv) call(e *ECall) *Val {
 			env.fail("dom needs a map")
 		}
 		dk, _, _ := mapKeys(mt)
-		return scalar(mkSelect(env.cur.comp(dk, arraySort(SInt, arraySort(sortOfType(mt.Key()), SBool))), m.T), nil)
+		return scalar(mkSelect(env.cur.comp(dk, arraySort(SInt, arraySort(mapKeySort(mt), SBool))), m.T), nil)
 	case "cell":
 		// cell([]T, a, j): element j of the backing array a of element type T
 		t := env.typeArg(e.Args[0])
@@ -708,4 +849,117 @@ func (env *SpecEnv) call(e *ECall) *Val {
 	}
 	env.fail("unknown function %s", e.Fn)
 	return nil
+}
+
+// autoPatterns chooses E-matching triggers for a quantifier: for every bound variable the smallest
+// enclosing array reads / uninterpreted applications that mention it (never bare arithmetic, which
+// makes solvers loop). Alternatives are emitted as separate :pattern annotations when one term covers
+// all variables; otherwise a single multi-pattern is built from one term per variable.
+func autoPatterns(body string, vars []string) string {
+	perVar := make([][]string, len(vars))
+	for vi, v := range vars {
+		seen := map[string]bool{}
+		idx := 0
+		for {
+			k := strings.Index(body[idx:], v)
+			if k < 0 {
+				break
+			}
+			pos := idx + k
+			idx = pos + len(v)
+			if t := enclosingTrigger(body, pos, pos+len(v)); t != "" && !seen[t] {
+				// a trigger must not contain a nested quantifier
+				if strings.Contains(t, "(forall ") || strings.Contains(t, "(exists ") {
+					continue
+				}
+				seen[t] = true
+				perVar[vi] = append(perVar[vi], t)
+			}
+		}
+		if len(perVar[vi]) == 0 {
+			return ""
+		}
+	}
+	containsAll := func(t string) bool {
+		for _, v := range vars {
+			if !strings.Contains(t, v) {
+				return false
+			}
+		}
+		return true
+	}
+	var out []string
+	used := map[string]bool{}
+	for _, ts := range perVar {
+		for _, t := range ts {
+			if containsAll(t) && !used[t] {
+				used[t] = true
+				out = append(out, " :pattern ("+t+")")
+			}
+		}
+	}
+	if len(out) > 0 {
+		if len(out) > 4 {
+			out = out[:4]
+		}
+		return strings.Join(out, "")
+	}
+	// multi-pattern: first candidate of each variable
+	var parts []string
+	for _, ts := range perVar {
+		parts = append(parts, ts[0])
+	}
+	return " :pattern (" + strings.Join(parts, " ") + ")"
+}
+
+// enclosingTrigger: the smallest s-expression around [lo,hi) that is an array read or an uninterpreted
+// function application.
+func enclosingTrigger(body string, lo, hi int) string {
+	// walk outwards over enclosing parentheses
+	depth := 0
+	for i := lo - 1; i >= 0; i-- {
+		switch body[i] {
+		case ')':
+			depth++
+		case '(':
+			if depth > 0 {
+				depth--
+				continue
+			}
+			// find the matching close
+			d := 0
+			end := -1
+			inBar := false
+			for j := i; j < len(body); j++ {
+				c := body[j]
+				if c == '|' {
+					inBar = !inBar
+				}
+				if inBar {
+					continue
+				}
+				if c == '(' {
+					d++
+				} else if c == ')' {
+					d--
+					if d == 0 {
+						end = j
+						break
+					}
+				}
+			}
+			if end < 0 {
+				return ""
+			}
+			expr := body[i : end+1]
+			if strings.HasPrefix(expr, "(select ") || strings.HasPrefix(expr, "(|uf:") || strings.HasPrefix(expr, "(sk ") {
+				if strings.HasPrefix(expr, "(sk ") {
+					// prefer the read that uses the interned key
+					continue
+				}
+				return expr
+			}
+		}
+	}
+	return ""
 }
